@@ -58,31 +58,14 @@ def _arc_obligations(run, ix):
     A2: the long-arc test is sign-equivalent to cos(span / 2) wherever the middle control point lies on the arc."""
     import numpy as np
     import sympy as sp
-    from ..alg import Frame, Interp, Unsupported, arr, symbols_array, _Return
+    from ..alg import Frame, Interp, Unsupported, arr, symbols_array, tolerant_block, _Return
 
     run.rule("A1", "arc_center: the computed centre is equidistant from the three control points (rational identity, 2D and 3D)")
     run.rule("A2", "arc_center: the quantity whose sign selects the long arc equals K sin(a) sin(b) cos(a + b), K > 0, for arc halves a, b on either side of the "
                    "middle control point: the decision depends on the span only, not on where the middle point sits")
     f = ix.func("trimesh.path.arc:arc_center")
 
-    def tolerant(frame, body, skipped):
-        for st in body:
-            if isinstance(st, ast.If):
-                try:
-                    t = frame.truth(frame.ev(st.test), st.test)
-                except Unsupported as e:
-                    skipped.append(f"line {st.lineno}: {str(e)[:60]}")
-                    continue
-                tolerant(frame, st.body if t else st.orelse, skipped)
-                continue
-            try:
-                frame.stmt(st)
-            except Unsupported as e:
-                key = (frame.fi.qualname, st.targets[0].id) if isinstance(st, ast.Assign) and isinstance(st.targets[0], ast.Name) else None
-                if key in frame.it.overrides:
-                    frame.env[key[1]] = frame.it.overrides[key]  # the statement's own value is not needed: the rule supplies it
-                else:
-                    skipped.append(f"line {st.lineno}: {str(e)[:60]}")
+    tolerant = tolerant_block
 
     # ---------------- A1
     for dim in (2, 3):
